@@ -262,7 +262,15 @@ CLAIMED['C05'] = dict(
          'other Loader entries are entries of the Dumper table); every represented int / float / '
          'bool / null re-reads with the same tag under the Loader table; enum members and string-likes '
          'construct back from the node the loader tags with their class; dash/underscore renaming is '
-         'an inverse pair. The text layer is assumption A-text. On the real code load(dumps(v)) must be '
+         'an inverse pair. Node-level round trip (C05_node_roundtrip / RT_load, Lemmas/RoundTrip): a node tree '
+         'that faithfully describes a value for the declared type (at every node recognition singles out one '
+         'type - the unambiguity precondition, stated through the recogniser itself - and the node has the '
+         'shape of a represented scalar / list / dict / enum member / string-like / user object with its '
+         'parameters and extra attributes) loads to exactly that value: recognition, savorize, the attribute '
+         'loop, retagging, tag stripping, flatten_mapping / construct_mapping, the missing / unknown / type '
+         'checks and the constructor call compose to the identity; with a worked example whose hypotheses are '
+         'discharged (the represented node computed by the model of the representers). '
+         'The text layer is assumption A-text. On the real code load(dumps(v)) must be '
          'structurally equal for generated values of unambiguous class models (adversarial strings, '
          'non-finite floats, dates, paths, enums, string-like keys, extras, shared sub-objects, '
          'inverse sweeten/savorize pairs).',
